@@ -156,6 +156,20 @@ def edge_programs(tier):
     for dn, db in dtor_bodies.items():
         for un, ub in uses.items():
             progs.append(("dtor-edge:%s:%s" % (dn, un), main_prog(ub + after, zcls % db)))
+    # a destructor that reads, through a static, the very field slot its owner is being released from
+    progs.append(("dtor-edge2:kid-through-static", main_prog(["N n = new N(new N(null));", "n = null;", "echo(\"done\");"],
+                  "class N { public N kid; public static N keep = null; public constructor(N kid) -> N { this.kid = kid; return this; } "
+                  "public destructor() -> void { if (N.keep == null) { N.keep = this; } else { N again = N.keep.kid; } } }\n")))
+    progs.append(("dtor-edge2:kid-through-static-3", main_prog(["N n = new N(new N(new N(null)));", "n = null;", "N.keep = null;", "echo(\"done\");"],
+                  "class N { public N kid; public static N keep = null; public constructor(N kid) -> N { this.kid = kid; return this; } "
+                  "public destructor() -> void { if (N.keep == null) { N.keep = this; } else { N again = N.keep.kid; if (again != null) { N deeper = again.kid; } } } }\n")))
+    # constant folding in the analyser on the same edge values the evaluator is probed with
+    for nm, ex in (("mod-minus-one", "lo % (0 - 1)"), ("mod-neg-literal", "lo % -1"), ("add-overflow", "hi + 1"), ("mul-overflow", "hi * 2"), ("neg-min", "-lo"), ("sub-overflow", "lo - 1"), ("mod-zero", "hi % 0")):
+        progs.append(("constfold:%s" % nm, main_prog(["final int lo = -2147483647 - 1;", "final int hi = 2147483647;", "final int m = %s;" % ex, "echo(m);"])))
+        progs.append(("constfold-size:%s" % nm, main_prog(["final int lo = -2147483647 - 1;", "final int hi = 2147483647;", "final int m = (%s) %% 3 + 4;" % ex, "int[m] a;", "echo(a);"])))
+    # command-line arguments that are not what the option expects
+    for arg in ("--shots=abc", "--shots=", "--shots=99999999999", "--shots=-1", "--shots=0", "--shots=1.5", "--shots= 2", "--echo=maybe", "--echo=", "--nonsense"):
+        progs.append(("cliarg:" + arg, main_prog(["echo(1);"])))
     # e4. long chains / wide fans of objects built in a loop (no program recursion), run with a production-sized native stack
     node2 = "class Node { public int v; public Node next; public Node[] kids; public constructor(int v, Node n) -> Node { this.v = v; this.next = n; } }\n"
     noded = "class Node { public int v; public Node next; public constructor(int v, Node n) -> Node { this.v = v; this.next = n; } public destructor() -> void { if (this.v % 5000 == 0) { echo(\"~\" + this.v); } } }\n"
@@ -212,7 +226,10 @@ def _one(item):
     opts = {"hook_draws": 1, "timeout_ms": 30000}
     if name.startswith("chain"):
         opts.update(stack_kb=8192, timeout_ms=240000)      # the stack a shipped binary gets
-    r = vdrv.run_job({"id": "c", "kind": "cli", "opts": opts, "argv": ["bloch", "main.bloch"], "files": {"main.bloch": src}})
+    argv = ["bloch", "main.bloch"]
+    if name.startswith("cliarg:"):
+        argv = ["bloch", name[len("cliarg:"):], "main.bloch"]
+    r = vdrv.run_job({"id": "c", "kind": "cli", "opts": opts, "argv": argv, "files": {"main.bloch": src}})
     rec = r.rec
     notes = r.ubsan_notes
     if r.crash or rec is None:
@@ -227,6 +244,11 @@ def _one(item):
         if any(l.startswith("[ERROR]") for l in err_lines):
             return name, src, "exit status 0 but an error was printed: %r" % err_lines, None, notes
         return name, src, None, "ok", notes
+    if name.startswith("cliarg:"):
+        # a usage error has its own wording; it must still not be the text of a C++ exception
+        if any(w in rec["stderr"] for w in ("stoi", "stol", "stof", "what():", "terminate called", "std::")):
+            return name, src, "a raw C++ exception text reached the user: %r" % rec["stderr"][:300], None, notes
+        return name, src, None, "usage error", notes
     if len(err_lines) != 2 or err_lines[0] != "[ERROR]: Stopping program execution..." or not DIAG.match(err_lines[1]):
         return name, src, "exit status 1 but stderr is not the banner followed by exactly one categorised diagnostic: %r" % err_lines, None, notes
     return name, src, None, err_lines[1].split(":")[0].split(" at ")[0], notes
@@ -261,7 +283,7 @@ def main(tier):
     # forms the analyser may legitimately reject) whose programs are rejected at compile time exercises nothing - that is a broken
     # generator, or an analyser that rejects valid programs (C16's subject), and must not pass silently
     for fam, rej in sorted(famrej.items()):
-        if fam in ("lit", "cast", "index-write", "index-read", "shots"):
+        if fam in ("lit", "cast", "shots", "constfold", "constfold-size", "cliarg") or fam.startswith("index"):
             continue
         ck.cap("family '%s': %d of %d programs were rejected at compile time and exercised nothing at run time" % (fam, rej, famtot[fam]))
         if rej * 2 > famtot[fam]:
